@@ -1827,11 +1827,12 @@ public:
     auto &LHS = expr.getLHS();
     auto &RHS = expr.getRHS();
     if (LHS->isConst() && RHS->isConst()) {
-      // Evaluate binary expression.
+      // Evaluate binary expression.  Addition and subtraction wrap around as
+      // they do at run time (unsigned arithmetic, no signed overflow).
       int result;
       switch (expr.getOp()) {
-        case Token::PLUS:  result = LHS->getValue() +  RHS->getValue(); break;
-        case Token::MINUS: result = LHS->getValue() -  RHS->getValue(); break;
+        case Token::PLUS:  result = static_cast<int>(static_cast<unsigned>(LHS->getValue()) + static_cast<unsigned>(RHS->getValue())); break;
+        case Token::MINUS: result = static_cast<int>(static_cast<unsigned>(LHS->getValue()) - static_cast<unsigned>(RHS->getValue())); break;
         case Token::EQ:    result = LHS->getValue() == RHS->getValue(); break;
         case Token::NE:    result = LHS->getValue() != RHS->getValue(); break;
         case Token::LS:    result = LHS->getValue() <  RHS->getValue(); break;
@@ -1852,7 +1853,7 @@ public:
       // Evaluate unary expression.
       int result;
       switch (expr.getOp()) {
-        case Token::MINUS: result = -element->getValue(); break;
+        case Token::MINUS: result = static_cast<int>(0U - static_cast<unsigned>(element->getValue())); break;
         case Token::NOT:   result = element->getValue() == 0 ? 1 : 0; break;
         default:
           throw SemanticTokenError(expr.getLocation(), "unexpected unary op", expr.getOp());
